@@ -262,14 +262,17 @@ func init() {
 						if isNullish(inputVal.DefaultValue) {
 							return nil, nil
 						}
-						astVal := astFromValue(inputVal.DefaultValue, inputVal)
+						astVal := astFromValue(inputVal.DefaultValue, inputVal.Type)
 						return printer.Print(astVal), nil
 					}
 					if inputVal, ok := p.Source.(*InputObjectField); ok {
 						if inputVal.DefaultValue == nil {
 							return nil, nil
 						}
-						astVal := astFromValue(inputVal.DefaultValue, inputVal)
+						if isNullish(inputVal.DefaultValue) {
+							return nil, nil
+						}
+						astVal := astFromValue(inputVal.DefaultValue, inputVal.Type)
 						return printer.Print(astVal), nil
 					}
 					return nil, nil
@@ -745,8 +748,43 @@ func astFromValue(value interface{}, ttype Type) ast.Value {
 		return val
 	}
 
-	if valueVal.Type().Kind() == reflect.Map {
-		// TODO: implement astFromValue from Map to Value
+	// Convert a Golang map to a GraphQL input object literal: the fields the
+	// value provides, in field-name order, each converted by the field's type.
+	if ttype, ok := ttype.(*InputObject); ok && valueVal.Kind() == reflect.Map && valueVal.Type().Key().Kind() == reflect.String {
+		fieldMap := ttype.Fields()
+		fieldNames := make([]string, 0, len(fieldMap))
+		for name := range fieldMap {
+			fieldNames = append(fieldNames, name)
+		}
+		sort.Strings(fieldNames)
+		fields := []*ast.ObjectField{}
+		for _, name := range fieldNames {
+			fieldVal := valueVal.MapIndex(reflect.ValueOf(name).Convert(valueVal.Type().Key()))
+			if !fieldVal.IsValid() {
+				continue
+			}
+			fieldAST := astFromValue(fieldVal.Interface(), fieldMap[name].Type)
+			if fieldAST == nil {
+				continue
+			}
+			fields = append(fields, ast.NewObjectField(&ast.ObjectField{
+				Name:  ast.NewName(&ast.Name{Value: name}),
+				Value: fieldAST,
+			}))
+		}
+		return ast.NewObjectValue(&ast.ObjectValue{
+			Fields: fields,
+		})
+	}
+
+	// The literal of an enum value is its NAME, whatever Golang value the
+	// schema uses internally for it.
+	if ttype, ok := ttype.(*Enum); ok && valueVal.Type().Comparable() {
+		if name, ok := ttype.Serialize(value).(string); ok {
+			return ast.NewEnumValue(&ast.EnumValue{
+				Value: name,
+			})
+		}
 	}
 
 	if value, ok := value.(bool); ok {
